@@ -188,13 +188,14 @@ class Explorer:
         return [n if v else ir.bnot(n) for n, v, _ in self.trace]
 
 
-def explore(fn, assumptions=(), max_paths=100000, timeout_ms=10000, prefix=''):
+def explore(fn, assumptions=(), max_paths=100000, timeout_ms=10000, prefix='', truncate=False):
     """run fn() under every feasible combination of its symbolic decisions.
 
     fn must create its fresh variables deterministically.  Returns (paths, stats)."""
     ex = Explorer(assumptions, timeout_ms)
     ex.pending = [[]]
     paths = []
+    truncated = 0
     old = S.CTX
     try:
         while ex.pending:
@@ -217,9 +218,12 @@ def explore(fn, assumptions=(), max_paths=100000, timeout_ms=10000, prefix=''):
             finally:
                 ex.finish()
             if len(paths) > max_paths:
+                if truncate:      # caller states the truncation as a bound: the paths explored so far are still real paths
+                    truncated = len(ex.pending)
+                    break
                 raise PathLimit(f'more than {max_paths} paths')
     finally:
         S.CTX = old
     stats = {'paths': len(paths), 'feasibility_queries': ex.queries, 'solver_s': round(ex.solver_s, 3),
-             'unknown_feasibility': ex.unknowns}
+             'unknown_feasibility': ex.unknowns, 'truncated_pending': truncated}
     return paths, stats
